@@ -327,7 +327,8 @@ class Sample:
         self.profile.display_format = False
         self.profile.debug_probe = ""
         self.profile.debug_novel = False
-        self.profile.min_avg_coverage = 2.0
+        # (archives written before this parameter existed lack it; otherwise the value of the run is kept)
+        self.profile.min_avg_coverage = getattr(self.profile, "min_avg_coverage", 2.0)
         self.phases = {f"r{i}": v for i, v in enumerate(phases)}
         norm = {p: [q for q, n in c.items() for _ in range(n)] for p, c in norm.items()}
         muts = {p: [q for q, n in c.items() for _ in range(n)] for p, c in muts.items()}
